@@ -20,6 +20,7 @@ def specs(tier):
         J('j-steady3:E1H1P1R1', 'steady', dict(n=3, journal='file'), dict(E=1, H=1, P=1, R=1), dict(k=1)),
         J('j-deposed3:H1R2P1', 'deposed', dict(n=3, journal='file'), dict(H=1, R=2, P=1)),
         J('jd-lagsnap3:H1R1P1J1', 'lagging_snap', dict(n=3, journal='file+dump', kill_only=('n3:1',)), dict(H=1, R=1, P=1, J=1)),
+        J('jd-dumped-voted3:E1P1R1', 'dumped_voted', dict(n=3, journal='file+dump', kill_only=('n2:1',)), dict(E=1, P=1, R=1)),
         J('jd-voted2:E1P1R1K1', 'voted', dict(n=2, journal='file+dump'), dict(E=1, P=1, R=1, K=1)),
     ]
     if not q:
